@@ -92,16 +92,36 @@ type Token struct {
 type Lexer func(resetPosition int) (Token, error)
 
 func Lex(s *source.Source) Lexer {
+	// Name tokens report their Start/End counted in characters from the
+	// point lexing resumed, which differs from the byte offset once a
+	// multi-byte character has been skipped. Callers resume with the End
+	// of a token they were given, so the byte offset behind the ends of
+	// the two most recent tokens (current and lookahead) is remembered.
 	var prevPosition int
+	var recent [2]struct{ end, byteEnd int }
 	return func(resetPosition int) (Token, error) {
 		if resetPosition == 0 {
 			resetPosition = prevPosition
+		} else {
+			for _, r := range recent {
+				if r.end == resetPosition && r.byteEnd != 0 {
+					resetPosition = r.byteEnd
+					break
+				}
+			}
 		}
 		token, err := readToken(s, resetPosition)
 		if err != nil {
 			return token, err
 		}
-		prevPosition = token.End
+		byteEnd := token.End
+		if token.Kind == NAME {
+			start, _ := positionAfterWhitespace(s.Body, resetPosition)
+			byteEnd = start + len(token.Value)
+		}
+		recent[1] = recent[0]
+		recent[0].end, recent[0].byteEnd = token.End, byteEnd
+		prevPosition = byteEnd
 		return token, nil
 	}
 }
